@@ -220,6 +220,50 @@ class Binder:
         raise ValueError(t)
 
 
+def unset_defaults(binder, t, o, path=''):
+    """Unset fields with a declared default inside the python value o of type t whose attribute does not read the declared
+    default: list of (path, declared default, what is read)."""
+    sc = binder.schema
+    out = []
+    if o is None:
+        return out
+    k = t['k']
+    if k == 'nullable':
+        return unset_defaults(binder, t['e'], o, path)
+    if k == 'list':
+        for i, x in enumerate(o):
+            out += unset_defaults(binder, t['e'], x, '%s[%d]' % (path, i))
+    elif k == 'map':
+        for key, x in o.items():
+            out += unset_defaults(binder, t['v'], x, '%s[%s]' % (path, key))
+    elif k == 'ref':
+        d = sc[t['n']]
+        if d['k'] == 'alias':
+            return unset_defaults(binder, d['t'], o, path)
+        if d['k'] == 'struct':
+            cname = binder.model_name(o, 'struct')
+            if cname is None:
+                return out
+            for fd in fields_inherited(sc, cname):
+                slot = getattr(o, '_%s_value' % fd['n'])
+                if repr(slot) == 'NOT_SET':
+                    if fd['d']['k'] != 'nodefault':
+                        try:
+                            got = getattr(o, fd['n'])
+                            ok = binder.from_py(fd['t'], got) == fd['d']
+                        except Exception as e:
+                            got, ok = '%s: %s' % (type(e).__name__, e), False
+                        if not ok:
+                            out.append(('%s.%s' % (path, fd['n']), fd['d'], repr(got)[:80]))
+                else:
+                    out += unset_defaults(binder, fd['t'], slot, '%s.%s' % (path, fd['n']))
+        elif d['k'] == 'union':
+            cname = binder.model_name(o, 'union')
+            if cname is not None and o._value is not None:
+                out += unset_defaults(binder, tag_type(sc, cname, o._tag), o._value, '%s.%s' % (path, o._tag))
+    return out
+
+
 def _nullable(t):
     return t
 
